@@ -554,7 +554,6 @@ def prog (pb : Problem) : PuzzleProg :=
     keys := ((List.range (pb.height * pb.width)).map fun i => 3 * (pb.height * pb.width) + i) ++
       List.range (pb.height * pb.width) }
 
-set_option maxHeartbeats 400000 in
 theorem program_eq {pb : Problem} (hwf : WellFormed pb) : program pb = .ok (prog pb) := by
   have hh := hwf.1
   have hw := hwf.2.1
